@@ -146,6 +146,47 @@ def run_seeded(prop: str) -> dict:
     return out
 
 
+NEUTRAL = Path(__file__).resolve().parent.parent / "neutral"
+
+
+def run_neutral(prop: str) -> dict:
+    """Behaviour-preserving refactorings written by independent sub-agents: the property's rules must stay silent."""
+    import shutil
+    import subprocess
+    import tempfile
+
+    out = {"applied": 0, "silent": 0, "skipped": 0, "false_alarms": []}
+    if not NEUTRAL.is_dir():
+        return out
+    from .model import REPO
+
+    base = _baseline(prop)
+    for d in sorted(NEUTRAL.iterdir()):
+        patch = d / "patch.diff"
+        if not patch.exists():
+            continue
+        tmp = Path(tempfile.mkdtemp(prefix="fsa_neutral_", dir="/tmp"))
+        try:
+            shutil.copytree(REPO / "fakesnow", tmp / "fakesnow", ignore=shutil.ignore_patterns("__pycache__"))
+            r = subprocess.run(["patch", "-p1", "-s", "-f", "-i", str(patch)], cwd=tmp, capture_output=True, text=True)
+            if r.returncode != 0:
+                out["skipped"] += 1
+                continue
+            out["applied"] += 1
+            try:
+                got = _findings(prop, Program(root=tmp))
+                new = [k for k in got if k not in base]
+            except AnalysisError as e:
+                new = [f"ANALYSIS-ERROR {e}"]
+            if new:
+                out["false_alarms"].append({"patch": d.name, "findings": new[:3]})
+            else:
+                out["silent"] += 1
+        finally:
+            shutil.rmtree(tmp, ignore_errors=True)
+    return out
+
+
 def run_for(prop: str, jobs: int = 16) -> int:
     """Thorough tier: run this property's variants, record in the evidence, never change the verdict."""
     from .report import EVID
@@ -163,6 +204,8 @@ def run_for(prop: str, jobs: int = 16) -> int:
     }
     seeded = run_seeded(prop)
     summary["seeded_changes"] = seeded
+    neutral = run_neutral(prop)
+    summary["neutral_refactorings"] = neutral
     p = EVID / f"{prop}.json"
     if p.exists():
         ev = json.loads(p.read_text())
@@ -172,6 +215,8 @@ def run_for(prop: str, jobs: int = 16) -> int:
           f"{summary['skipped']} skipped, {len(fails)} failed")
     print(f"[{prop}] seeded changes written for this property: {seeded['applied']} applied, {seeded['reported']} reported, "
           f"{seeded['skipped']} no longer apply, missed: {seeded['missed']}")
+    print(f"[{prop}] independent neutral refactorings: {neutral['applied']} applied, {neutral['silent']} silent, "
+          f"{neutral['skipped']} no longer apply, false alarms: {neutral['false_alarms']}")
     for r in fails:
         print(f"SELFTEST-WARN {r['name']}: {r['detail']}")
     return 0
